@@ -10,6 +10,16 @@ def _c13(res):
         nontrivial=lambda f, r: len(r[1]) == 72)
 
 
+def _c12(res):
+    res.assumptions += ["Go int modelled as unbounded Int", "go2lean subset as in DESIGN Appendix D",
+                        "property text says 32 schemes; the documented/source table has 31 — the set is the meaning"]
+    rec.run_rec_property(
+        res, "url", "Gvlean.Props.C12",
+        ["Props.c12", "Props.c12_no_panic", "Props.c12_forbidden", "Props.c12_tables"],
+        nontrivial=lambda f, r: "3a" in r[1])
+
+
 TABLE = {
+    "C12": {"run": _c12, "replay": rec.replay, "level": "proof"},
     "C13": {"run": _c13, "replay": rec.replay, "level": "proof"},
 }
